@@ -154,10 +154,16 @@ def configure_optimizer(opt, fit, derived=None, model=None):
             opt._observed.derivedParameters[name] = tup[:3] + (name in derived,)
 
 
+def spell_mode(f):
+    sp = f.get('mode_spelling', 'lower')
+    m = f['mode']
+    return m.upper() if sp == 'upper' else m.title() if sp == 'title' else m
+
+
 def apply_fit_entry(opt, f):
     """Mode, then either a user prior or (set_prior False) bounds from which
     the optimizer derives its default prior."""
-    opt.set_mode(f['name'], f['mode'])
+    opt.set_mode(f['name'], spell_mode(f))
     if f.get('set_prior', True):
         opt.set_prior(f['name'], M.make_prior(f['prior']))
     else:
@@ -256,7 +262,7 @@ def apply_refit(opt, old, new):
         if o is None:
             opt.enable_fit(f['name'])
         if o is None or o['mode'] != f['mode']:
-            opt.set_mode(f['name'], f['mode'])
+            opt.set_mode(f['name'], spell_mode(f))
         if f.get('factor'):
             opt.set_factor_boundary(f['name'], list(f['factor']))
         elif o is None or o['prior'] != f['prior'] or o.get('factor') or \
